@@ -82,9 +82,11 @@ type uploader struct {
 
 func (u *uploader) Upload(_ context.Context, records billstat.Records) error { return u.onUpload(records) }
 
+func newLogger() *slog.Logger { return slog.New(slog.NewTextHandler(io.Discard, nil)) }
+
 func newRecorder(u billstat.Uploader) *billstat.RuntimeRecorder {
 	return billstat.NewRuntimeRecorder(&billstat.RuntimeRecorderConfig{
-		Logger:   slog.New(slog.NewTextHandler(io.Discard, nil)),
+		Logger:   newLogger(),
 		ErrColl:  errColl{},
 		Uploader: u,
 		Metrics:  billstat.EmptyMetrics{},
@@ -235,10 +237,11 @@ func TestCheck(t *testing.T) {
 		"(records only between uploads / records injected while an upload is in flight for devices inside and outside the batch / both), " +
 		"each with a seeded record sequence over 4 devices; distinct = (pattern, shape); non-trivial = pattern has a failure that is later followed by a success " +
 		"or shape injects in-flight records. stress: writers x refresher under the race detector; porcupine: small concurrent histories against a counter model")
-	r.Assume("the Uploader reads the batch only during Upload (as backendpb does)")
+	r.Assume("scripted part: the Uploader reads the batch only during Upload (as backendpb does); the real backendpb uploader is exercised separately over loopback gRPC")
 	r.Assume("one refresher at a time (agdservice.RefreshWorker runs Refresh sequentially)")
 
 	scripted(r)
+	realUploader(r)
 	stress(r)
 	linearizable(r)
 
@@ -246,6 +249,7 @@ func TestCheck(t *testing.T) {
 	r.Require("records_while_upload_in_flight", 10)
 	r.Require("stress_records", 1000)
 	r.Require("porcupine_ok", 1)
+	r.Require("grpc_streams_rejected", 20)
 }
 
 func scripted(r *vkit.Run) {
